@@ -106,6 +106,8 @@ package codegen
 //@   ensures (result != 0 && na == 2 && rAct(m0, s0, 0) == 1) ==> result == rAct(m0, s0, 1) - 2 && l.mode == _lexerModes[rPar(m0, s0, 0)] && len(l.modeStack) == old(len(l.modeStack)) + 1 && l.modeStack[old(len(l.modeStack))] == m0
 //@   ensures (result != 0 && na == 2 && rAct(m0, s0, 0) == 2 && old(len(l.modeStack)) == 0) ==> result == -1
 //@   ensures (result != 0 && na == 2 && rAct(m0, s0, 0) == 2 && old(len(l.modeStack)) > 0) ==> result == rAct(m0, s0, 1) - 2 && l.mode == old(l.modeStack[len(l.modeStack) - 1]) && len(l.modeStack) == old(len(l.modeStack)) - 1
+//   pop_mode then push_mode in one rule: the mode popped to is what the push saves
+//@   ensures (result != 0 && na == 3 && rAct(m0, s0, 0) == 2 && rAct(m0, s0, 1) == 1 && old(len(l.modeStack)) > 0) ==> result == rAct(m0, s0, 2) - 2 && l.mode == _lexerModes[rPar(m0, s0, 1)] && len(l.modeStack) == old(len(l.modeStack)) && l.modeStack[len(l.modeStack) - 1] == old(l.modeStack[len(l.modeStack) - 1])
 //   the machine stays well formed
 //@   ensures wfMode(l.mode) && (result != -1 ==> 0 <= l.state && l.state < nstates(l.mode))
 //@   modifies l.token, l.state, l.mode, l.modeStack, l.modeStack[*]
@@ -135,6 +137,7 @@ package codegen
 //@   loop 1 invariant jj == 0 ==> l.mode == m0 && l.modeStack == old(l.modeStack) && (forall q int :: {l.modeStack[q]} 0 <= q && q < len(l.modeStack) ==> l.modeStack[q] == old(l.modeStack[q]))
 //@   loop 1 invariant (jj == 1 && rAct(m0, s0, 0) == 1) ==> l.mode == _lexerModes[rPar(m0, s0, 0)] && len(l.modeStack) == old(len(l.modeStack)) + 1 && l.modeStack[old(len(l.modeStack))] == m0
 //@   loop 1 invariant (jj == 1 && rAct(m0, s0, 0) == 2) ==> old(len(l.modeStack)) > 0 && l.mode == old(l.modeStack[len(l.modeStack) - 1]) && len(l.modeStack) == old(len(l.modeStack)) - 1
+//@   loop 1 invariant (jj == 2 && rAct(m0, s0, 0) == 2 && rAct(m0, s0, 1) == 1) ==> old(len(l.modeStack)) > 0 && l.mode == _lexerModes[rPar(m0, s0, 1)] && len(l.modeStack) == old(len(l.modeStack)) && l.modeStack[len(l.modeStack) - 1] == old(l.modeStack[len(l.modeStack) - 1])
 //@   loop 1 invariant unchangedOld(fields(_LexerStateMachine), *l)
 //@   loop 1 invariant unchangedOld(elems([]uint32), l.modeStack[*])
 //@   loop 1 invariant base(l.modeStack) == old(base(l.modeStack)) || fresh(l.modeStack)
